@@ -128,7 +128,11 @@ pub fn gen_case(rng: &mut Rng) -> (String, &'static str) {
     } else if fam < 94 {
         (FIXED[rng.below(FIXED.len())].to_string(), "malformed-quoted-or-numeric")
     } else if fam < 96 {
-        (refimpl::sentence::long_token_case(rng), "long-token")
+        if rng.chance(1, 2) {
+            (refimpl::sentence::long_token_case(rng), "long-token")
+        } else {
+            (refimpl::sentence::malformed_literal_case(rng), "malformed-literal")
+        }
     } else if fam < 97 {
         if rng.chance(1, 2) {
             (refimpl::sentence::lookalike_case(rng), "unicode-lookalike")
@@ -159,7 +163,7 @@ fn edge_case(idx: u64) -> (String, Value, Option<String>) {
     (expr, doc, a.map(|n| format!("@[{}]", n)))
 }
 
-const PATS: [&str; 18] = ["@", "@, @", "&@, @", "@, &@", "@[0]", "@[0], @[1]", "k", "`1e308`", "@, `1e308`", "", "@, @, @", "'s', @", "@, 's'", "&k, @", "@, &k", "a, b", "@[1], @[0]", "k, a"];
+const PATS: [&str; 22] = ["@", "@, @", "&@, @", "@, &@", "@[0]", "@[0], @[1]", "k", "`1e308`", "@, `1e308`", "", "@, @, @", "'s', @", "@, 's'", "&k, @", "@, &k", "a, b", "@[1], @[0]", "k, a", "&@[::0], @", "@, &@[::0]", "@, &[@][::0]", "&[0][::0], @"];
 
 const EDGE: [Option<i64>; 11] = [
     None,
